@@ -1,9 +1,11 @@
 #!/bin/sh
 # scripts/seed_batch.sh C05 C06 ...      : round 1 (worktree /tmp/seed/<id>, seeds <id>A <id>B)
-# ROUND=2 scripts/seed_batch.sh C05 ...  : round 2 (worktree /tmp/seed/R2<id>, seeds <id>C <id>D)
+# ROUND=2 scripts/seed_batch.sh C05 ...  : round 2 (worktree /tmp/seed/R2<id>, seeds <id>C <id>D); ROUND=3: R3<id>, <id>E <id>F
 # confirm, file and evaluate the two seeds of each finished sub-agent, then drop its worktree
 for id in "$@"; do
-  if [ "$ROUND" = 2 ]; then wt=/tmp/seed/R2$id; spec="A=C B=D"; names="C D"; else wt=/tmp/seed/$id; spec="A B"; names="A B"; fi
+  if [ "$ROUND" = 2 ]; then wt=/tmp/seed/R2$id; spec="A=C B=D"; names="C D";
+  elif [ "$ROUND" = 3 ]; then wt=/tmp/seed/R3$id; spec="A=E B=F"; names="E F";
+  else wt=/tmp/seed/$id; spec="A B"; names="A B"; fi
   python3 /verif/scripts/seed_intake.py $wt $id $spec 2>&1 | tail -2 | cut -c1-330
   for L in $names; do
     [ -d /verif/seeded/$id$L ] && python3 /verif/scripts/seed_eval.py $id$L 2>&1 | tail -3
